@@ -14,8 +14,9 @@ import math, time
 import numpy as np
 import gen
 
-RULE = ("state types positive/complex/mixed, nv 1..4 (quick) / 1..5 (thorough), nh (and na) drawn in 1..nv+1, parameter draws from "
-        "the mixture in harness/gen.py written into live QuCumber objects; for every state: SigmaX/Y/Z with absolute off/on and "
+RULE = ("state types positive/complex/mixed, nv 1..5 in both tiers (quick: fewer draws), nh (and na) drawn in 1..nv+1, parameter draws from "
+        "the mixture in harness/gen.py plus a large-bias regime (|b| up to 30, 25 % of the draws) written into live QuCumber objects; the basis is "
+        "enumerated independently of the code under test; for every state: SigmaX/Y/Z with absolute off/on and "
         "NeighbourInteraction for c = 1..n and both boundary conditions, applied to all 2^n basis states (weighted exactly by "
         "probability/Z) and to a random batch with repeats; a case is (state type, sizes, parameter draw); "
         "non-trivial := all biases non-zero and (state is positive or its phase network is non-zero)")
@@ -72,12 +73,40 @@ def build(kind, nv, nh, na, params):
     return s
 
 
+def large_biases(ctx, arrs, bias_from, keep_zero_last=False):
+    """Large-bias regime (the quantifier's "magnitudes up to ~30"): every bias entry log-uniform in [1e-3, 30] with a
+    random sign, one of them pushed to 20..30; gen.nonzero_bias alone only draws N(0,1) / U[-3,3]."""
+    rng = ctx.rng
+    out = [np.array(a, dtype=float) for a in arrs]
+    last = len(out) - 1 if keep_zero_last else len(out)
+    for k in range(bias_from, last):
+        b = out[k]
+        b[...] = np.exp(rng.uniform(np.log(1e-3), np.log(30.0), size=b.shape)) * rng.choice([-1.0, 1.0], size=b.shape)
+    k = int(rng.integers(bias_from, last))
+    j = int(rng.integers(0, out[k].size))
+    out[k].flat[j] = rng.uniform(20.0, 30.0) * rng.choice([-1.0, 1.0])
+    ctx.count("param_regime:large_bias")
+    return out
+
+
 def draw(ctx, kind, nv, nh, na):
+    big = ctx.rng.random() < 0.25
+    if kind == "mixed":
+        am = gen.prbm_params(ctx, nv, nh, na)
+        ph = gen.prbm_params(ctx, nv, nh, na, phase=True)
+        if big:
+            am = large_biases(ctx, am, 2)
+            ph = large_biases(ctx, ph, 2, keep_zero_last=True)      # documented: aux bias of the phase net stays 0
+        return {"am": gen.plist(*am), "ph": gen.plist(*ph)}
+    am = gen.brbm_params(ctx, nv, nh)
+    if big:
+        am = large_biases(ctx, am, 1)
     if kind == "positive":
-        return {"am": gen.plist(*gen.brbm_params(ctx, nv, nh))}
-    if kind == "complex":
-        return {"am": gen.plist(*gen.brbm_params(ctx, nv, nh)), "ph": gen.plist(*gen.brbm_params(ctx, nv, nh))}
-    return {"am": gen.plist(*gen.prbm_params(ctx, nv, nh, na)), "ph": gen.plist(*gen.prbm_params(ctx, nv, nh, na, phase=True))}
+        return {"am": gen.plist(*am)}
+    ph = gen.brbm_params(ctx, nv, nh)
+    if big:
+        ph = large_biases(ctx, ph, 1)
+    return {"am": gen.plist(*am), "ph": gen.plist(*ph)}
 
 
 def model_state_args(kind, params):
@@ -117,6 +146,19 @@ def nontrivial(kind, params):
 
 
 # --------------------------------------------------------------------------- one case
+def independent_space(ctx, s, n):
+    """The full basis, enumerated here (itertools.product, site 0 most significant) and NOT by the code under test."""
+    import torch
+    sp = gen.all_states(n)
+    try:
+        own = s.generate_hilbert_space().numpy()
+        if own.shape != sp.shape or not np.array_equal(own, sp):
+            ctx.count("generate_hilbert_space differs from the independent enumeration (C19's clause; not required here)")
+    except Exception:
+        ctx.count("generate_hilbert_space raised (C19's clause; not required here)")
+    return torch.tensor(sp, dtype=torch.double), sp
+
+
 def state_matrices(ctx, s, kind, space, case):
     """rho (dense complex, unnormalised), p (weights used for sampling) from the implementation."""
     from qucumber.utils import cplx
@@ -142,8 +184,7 @@ def check_state(ctx, kind, nv, nh, na, params, with_model=True):
     from qucumber.observables import SigmaX, SigmaY, SigmaZ, NeighbourInteraction
     case = {"state": kind, "nv": nv, "nh": nh, "na": na, "params": params}
     s = build(kind, nv, nh, na, params)
-    space = s.generate_hilbert_space()
-    sp = space.numpy()
+    space, sp = independent_space(ctx, s, nv)
     if not energies_ok(kind, params, sp):
         ctx.count("skipped_overflow")
         return
@@ -156,8 +197,8 @@ def check_state(ctx, kind, nv, nh, na, params, with_model=True):
     rho, p = sm
     Z = float(p.sum())
     tr = float(np.trace(rho).real)
-    ctx.require("sum of probabilities == trace of the reconstructed matrix", math.isclose(Z, tr, rel_tol=1e-8), case,
-                {"Z": Z, "trace": tr})
+    if not math.isclose(Z, tr, rel_tol=1e-8):      # C02's clause (diagonal of rho is the probability), not demanded by C08
+        ctx.count("sum of probabilities != trace of the reconstructed matrix (C02's clause; not required here)")
     rho_n = rho / np.trace(rho)
     w = p / Z
     n = nv
@@ -250,16 +291,12 @@ def check_state(ctx, kind, nv, nh, na, params, with_model=True):
     ctx.traces += 1
 
 
-def sizes(ctx):
-    top = 5 if ctx.thorough else 4
-    return list(range(1, top + 1))
-
-
 def run(ctx):
-    draws = 20 if ctx.thorough else 8
-    for nv in sizes(ctx):
-        for kind in ("positive", "complex", "mixed"):
-            for d in range(draws):
+    # nv 1..5 in both tiers (the property's range); the quick tier uses fewer draws
+    plan = {1: 20, 2: 20, 3: 20, 4: 20, 5: 20} if ctx.thorough else {1: 6, 2: 6, 3: 6, 4: 5, 5: 4}
+    for nv in (1, 2, 3, 4, 5):
+        for kind in ("mixed", "complex", "positive"):
+            for d in range(plan[nv]):
                 ctx.torch_seed()
                 nh = int(ctx.rng.integers(1, nv + 2))
                 na = int(ctx.rng.integers(1, nv + 2)) if kind == "mixed" else 0
@@ -280,8 +317,7 @@ def table_cases(ctx):
             na = 2 if kind == "mixed" else 0
             params = draw(ctx, kind, nv, nh, na)
             s = build(kind, nv, nh, na, params)
-            space = s.generate_hilbert_space()
-            sp = space.numpy()
+            space, sp = independent_space(ctx, s, nv)
             if not energies_ok(kind, params, sp):
                 ctx.count("skipped_overflow")
                 continue
